@@ -3,6 +3,7 @@ C10 — Block-wise messages respect the size budget and the client's block size.
 Model: `negotiate` (Model/Block.lean) + the RFC wire length (Spec/Wire.lean).
 `Consts.blockOptionsMaxLength` is re-read from the source on every run.
 -/
+import CoapLite.Lemmas.Shape.Api
 import CoapLite.Lemmas.BlockFits
 import CoapLite.Lemmas.BlockFitsRange
 import CoapLite.Lemmas.BlockClamp
@@ -276,5 +277,13 @@ theorem state_shape_matches_source :
     Shapes.header = [("code", "MessageClass"), ("message_id", "u16"), ("ver_type_tkl", "u8")] ∧
     Shapes.headerRaw = [("code", "u8"), ("message_id", "u16"), ("ver_type_tkl", "u8")] :=
   ⟨ShapeTie.no_global_state, ShapeTie.blockHandler, ShapeTie.blockHandlerConfig, ShapeTie.requestCacheKey, ShapeTie.blockState, ShapeTie.blockValue, ShapeTie.coapRequest, ShapeTie.coapResponse, ShapeTie.packet, ShapeTie.header, ShapeTie.headerRaw⟩
+
+/-- the public entry points of the modelled source files – re-read from /repo/src on every run – are
+exactly the ones the model was written against (`Lemmas/Shape/Api.lean`): a new public way to change the
+state this property is about, or a receiver that became `&mut self`, breaks this theorem -/
+theorem api_surface_matches_source :
+    Shapes.apiBlockHandler = ShapeTie.expectedApiBlockHandler ∧
+    Shapes.apiBlockValue = ShapeTie.expectedApiBlockValue :=
+  ⟨ShapeTie.apiBlockHandler, ShapeTie.apiBlockValue⟩
 
 end CoapLite.C10
